@@ -19,17 +19,20 @@ fn is_operator_free_call(e: &E) -> bool {
 
 pub fn check(c: &TypedCase) -> Outcome {
     let vars = c.vars();
-    let mut st = St::new(&vars, vec![]);
-    let model = eval(&c.expr, &mut st);
-    if let Err(Stop::Unsupported(why)) = &model {
+    let variants = crate::props::c03::model_variants(&c.expr, &vars, &vec![], false);
+    if let Err(Stop::Unsupported(why)) = &variants[0].0 {
         return Outcome::Skip(why);
     }
+    // where the statement leaves a choice (exists_one visiting elements after its second hit) either variant is fine
+    let pick = |log: &Vec<String>| variants.iter().position(|(_, st)| st.log == *log).unwrap_or(0);
     let src = c.expr.render();
     let (ran, log) = sut::run_logged(&src, &vars, &vec![]);
     let got = match ran {
         Ran::Done(r) => r,
-        other => return fail(format!("`{src}`: expected {:?}, observed {}", model, other.show())),
+        other => return fail(format!("`{src}`: expected {:?}, observed {}", variants[0].0, other.show())),
     };
+    let (model, st) = &variants[pick(&log)];
+    let model = model.clone();
     if log != st.log {
         // say what kind of difference it is
         let kind = if log.len() > st.log.len() {
